@@ -216,6 +216,13 @@ func fixedCases() []input {
 		b2.pkt(mkPkt(c, false, 0x10, 0, c.cport), 4, 300)
 	}
 	out = append(out, b2.lock("writeout", 0).unlock().in)
+	// direction must come from the packet type, not from the aux byte: IPv6 / IPv4 outgoing, inbound TCP with flags
+	// exactly 0x04 and inbound ICMPv6 type 4, inside each kind of window
+	for _, w := range []string{"status", "writeout", "query"} {
+		out = append(out, newBuilder(128, big).pkt(web, 0, 70).lock(w, 1).pkt(webR, 4, 1500).pkt(mkPkt(c6web, false, 0x04, 0, c6web.cport), 0, 41).
+			pkt(mkPkt(c6icmp, true, 0, 4, 0), 0, 90).pkt(mkPkt(c6icmp, false, 0, 128, 0), 4, 91).
+			pkt(mkPkt(c4ssh, true, 0x04, 0, c4ssh.cport), 0, 42).pkt(ssh, 4, 43).unlock().lock("writeout", 0).unlock().in)
+	}
 	return out
 }
 
@@ -249,7 +256,7 @@ func gen(r *vhlib.Rand, i int, o vhlib.Opts) any {
 		}
 		lastC, lastRev = ci, rev
 		c := cs[ci]
-		flags := vhlib.Pick(r, []byte{0x10, 0x18, 0x02, 0x12, 0x11, 0x00})
+		flags := vhlib.Pick(r, []byte{0x10, 0x18, 0x02, 0x12, 0x11, 0x00, 0x04, 0x80, 0x81})
 		var ity byte
 		if c.proto == 1 {
 			ity = map[bool]byte{false: 8, true: 0}[rev]
@@ -273,11 +280,9 @@ func gen(r *vhlib.Rand, i int, o vhlib.Opts) any {
 		case 2:
 			d[0] = byte(vhlib.Pick(r, []int{0x05, 0x55, 0x75, 0xf0})) // neither IPv4 nor IPv6
 		}
-		t := uint8(0)
-		if rev != r.Chance(10) {
-			t = 4
-		}
-		if r.Chance(5) {
+		// packet type (direction w.r.t. the interface) is a dimension of its own: inbound 0 / outgoing 4, rarely others
+		t := vhlib.Pick(r, []uint8{0, 4})
+		if r.Chance(6) {
 			t = vhlib.Pick(r, []uint8{1, 2, 3, 255})
 		}
 		s := uint32(40 + r.Intn(1460))
